@@ -60,6 +60,15 @@ skip:
 	cpy r2,r1
 	add r2,r0
 %endfragment
+%fragment sclf resin:r0 resout:r0
+	clr r2
+	inc r2
+	add r0,r2
+%endfragment
+%fragment gapf resin:r0 resout:r0
+	cpy r3,r0
+	add r0,r3
+%endfragment
 `
 
 type fragSrc struct {
@@ -188,10 +197,18 @@ func fragVectors(rsize int) [][]uint64 {
 
 // genFragGraphs runs TLC -simulate on FragGraph and returns the graphs with the mappings visited.
 func genFragGraphs(r *evid.Run, scratch string, rsize, ninst, nout, nremap, n int, seed int64) (items []fragItem, transitions int64, ok bool) {
+	return genFragGraphsOf(r, scratch, nil, false, rsize, ninst, nout, nremap, n, seed)
+}
+
+// genFragGraphsOf draws the graphs from a subset of the fragment library (nil: all of it).
+func genFragGraphsOf(r *evid.Run, scratch string, frags []string, forkJoin bool, rsize, ninst, nout, nremap, n int, seed int64) (items []fragItem, transitions int64, ok bool) {
 	big := ninst > 6
-	dir := filepath.Join(scratch, fmt.Sprintf("g_%d_%d_%d", rsize, ninst, nout))
+	if frags == nil {
+		frags = []string{"incf", "dblf", "addf", "trif", "splf", "swpf", "dczf", "sbff", "sclf", "gapf"}
+	}
+	dir := filepath.Join(scratch, fmt.Sprintf("g_%d_%d_%d_%d_%v", rsize, ninst, nout, len(frags), forkJoin))
 	os.MkdirAll(dir, 0o755)
-	cfg := fmt.Sprintf("SPECIFICATION Spec\nCONSTANTS\n RSize = %d\n NInst = %d\n NExtOut = %d\n NRemap = %d\n BigGraph = %s\nINVARIANT TypeOK\nPROPERTY MappingIrrelevant\nCHECK_DEADLOCK FALSE\n", rsize, ninst, nout, nremap, strings.ToUpper(fmt.Sprint(big)))
+	cfg := fmt.Sprintf("SPECIFICATION Spec\nCONSTANTS\n RSize = %d\n NInst = %d\n NExtOut = %d\n NRemap = %d\n BigGraph = %s\n ForkJoin = %s\n FragSet = {\"%s\"}\nINVARIANT TypeOK\nPROPERTY MappingIrrelevant\nCHECK_DEADLOCK FALSE\n", rsize, ninst, nout, nremap, strings.ToUpper(fmt.Sprint(big)), strings.ToUpper(fmt.Sprint(forkJoin)), strings.Join(frags, "\", \""))
 	res, err := tlc.Run(tlc.Options{SpecDir: specDir, Module: "FragGraph", CfgText: cfg, Workers: 1, Timeout: 20 * time.Minute,
 		Args: []string{"-simulate", fmt.Sprintf("file=%s/b,num=%d", dir, n), "-depth", strconv.Itoa(ninst + nout + nremap + 3), "-seed", strconv.FormatInt(seed, 10)}})
 	if err != nil {
@@ -271,6 +288,16 @@ func runC06(r *evid.Run) {
 	if !gen(8, 3, 2, 4, r.Pick(40, 300), r.Seed*5+1) || !gen(16, 4, 2, 5, r.Pick(25, 250), r.Seed*5+2) || !gen(8, 5, 3, 6, r.Pick(10, 150), r.Seed*5+3) ||
 		!gen(16, 26, 2, 4, r.Pick(16, 150), r.Seed*5+4) {
 		return
+	}
+	// graphs over sub-libraries whose register names leave a hole (r0, r1, r3) or overlap in one scratch register
+	// (fork-join graphs: a result stays live while another fragment of the same processor runs)
+	for i, sub := range [][]string{{"addf", "gapf", "incf"}, {"addf", "gapf", "incf", "dblf", "swpf"}, {"addf", "sclf", "trif", "sbff", "dczf"}} {
+		its, tr, ok := genFragGraphsOf(r, scratch, sub, true, 16, 4, 1, 5, r.Pick(24, 200), r.Seed*5+10+int64(i))
+		if !ok {
+			return
+		}
+		items = append(items, its...)
+		transitions += tr
 	}
 	r.Set("states", int64(len(items)))
 	r.Set("transitions", transitions)
